@@ -6,6 +6,7 @@ import (
 	"regexp"
 	"strconv"
 	"strings"
+	"time"
 
 	"evylang.dev/evy/pkg/evaluator"
 	"evylang.dev/evy/pkg/parser"
@@ -21,7 +22,7 @@ func init() {
 	core.Register(&core.Check{
 		ID:    "C14",
 		Level: "fault_enumeration",
-		Rule:  "generated programs made of segments 'marker print - loop nest or call chain without any built-in call - marker print' with known iteration and call counts, terminating and endless (while true, unbounded recursion, looping handlers, idle loops whose body is a comment or blank line, at top level and in functions), with read, sleep, passing and failing tests and graphics between segments; the uninterrupted run T is recorded with yield marks, then the program is re-run once per stop point k (every yield up to 300 per program in quick, up to 3000 in thorough, plus the last 50) with the stop flag raised inside yield #k, and once per effect with the flag raised from inside the platform call; oracles: density (yields between markers >= iterations + calls; never more than 64 evaluation steps without a yield on the hook) and stop (no yield after the stop, effects are T's prefix plus at most the step in flight, result 'stopped', only the test summary may follow). distinct = distinct (program, stop point) pairs",
+		Rule:  "generated programs made of segments 'marker print - loop nest or call chain without any built-in call - marker print' with known iteration and call counts, terminating and endless (while true, unbounded recursion, looping handlers, idle loops whose body is a comment or blank line, at top level and in functions), with read, sleep, passing and failing tests and graphics between segments; the uninterrupted run T is recorded with yield marks, then the program is re-run once per stop point k (every yield up to 300 per program in quick, up to 3000 in thorough, plus the last 50) with the stop flag raised inside yield #k, and once per effect with the flag raised from inside the platform call; oracles: density (yields between markers >= iterations + calls; never more than 64 evaluation steps without a yield on the hook; a case that burns 15 s of CPU time without reaching a yield or an evaluation step at all is ended by the worker and, confirmed alone, reported as `uninterruptible`) and stop (no yield after the stop, effects are T's prefix plus at most the step in flight, result 'stopped', only the test summary may follow). distinct = distinct (program, stop point) pairs",
 		Assumptions: []string{
 			"a loop inside a built-in that neither yields nor passes through eval (D14's native repetition loop) is not reachable by this monitor",
 			"the stop flag is raised only from inside Yield or inside a platform call, as the browser does (single thread)",
@@ -32,6 +33,7 @@ func init() {
 			}
 			return 128
 		},
+		StallCPU:  15 * time.Second,
 		Run:       c14Run,
 		MinEvents: []string{"programs", "stop_points", "yields_observed", "segments_density_checked"},
 	})
@@ -185,8 +187,9 @@ func c14Run(c *core.Ctx, i int) {
 			// interrupted by the platform; end it here (the stop flag is checked by the next step)
 			conf.StarveLimit = 20000
 			conf.OnStarve = func() { starved = true; ev.Stopped = true }
+			conf.OnStep = c.Progress
 		},
-		OnYield: func(int) { conf.Yielded() }})
+		OnYield: func(int) { conf.Yielded(); c.Progress() }})
 	rec = T.Rec
 	if starved {
 		c.Violation("density-starved", fmt.Sprintf("20000 evaluation steps without a single yield (%s): the platform cannot interrupt this program", p.kind), p.src, nil)
@@ -253,7 +256,7 @@ func c14Run(c *core.Ctx, i int) {
 		c.Event("stop_points", 1)
 		c.Distinct(fmt.Sprintf("%s|y%d", p.src, k))
 		testsDone := 0
-		opts := plat.Opts{Inputs: inputs, Events: p.events, StopAtYield: k, YieldBudget: budget + 10}
+		opts := plat.Opts{Inputs: inputs, Events: p.events, StopAtYield: k, YieldBudget: budget + 10, OnYield: func(int) { c.Progress() }}
 		if hasTests {
 			// count the test calls that really completed in this interrupted run (hook), to judge the summary
 			opts.Attach = func(ev *evaluator.Evaluator) {
@@ -301,7 +304,7 @@ func c14Run(c *core.Ctx, i int) {
 		c.Event("stop_points", 1)
 		c.Event("stop_in_effect_points", 1)
 		c.Distinct(fmt.Sprintf("%s|e%d", p.src, k))
-		o := plat.Run(p.src, plat.Opts{Inputs: inputs, Events: p.events, StopAtEffect: k, YieldBudget: budget + 10})
+		o := plat.Run(p.src, plat.Opts{Inputs: inputs, Events: p.events, StopAtEffect: k, YieldBudget: budget + 10, OnYield: func(int) { c.Progress() }})
 		ev := o.Events
 		if len(ev) > 0 && isSummary(ev[len(ev)-1]) {
 			ev = ev[:len(ev)-1]
